@@ -70,8 +70,16 @@ func Exposure(v *simapi.View, wl simapi.Obj, kind, style string) (exp int, repli
 	case "deployment":
 		switch style {
 		case "canary":
+			img := func(o simapi.Obj) string {
+				if cs := simapi.List(o, "spec.template.spec.containers"); len(cs) > 0 {
+					return simapi.Str(cs[0], "image")
+				}
+				return ""
+			}
 			for _, d := range v.List("Deployment", simapi.NS(wl)) {
-				if simapi.Label(d, "rollouts.kruise.io/canary-deployment") == simapi.Name(wl) && !simapi.Deleting(d) {
+				// only canary Deployments of the revision the workload now asks for: the one of a superseded release is
+				// capacity on its way out (it lingers until the garbage collector gets to it), not exposure of the new revision
+				if simapi.Label(d, "rollouts.kruise.io/canary-deployment") == simapi.Name(wl) && !simapi.Deleting(d) && img(d) == img(wl) {
 					exp += int(simapi.IntD(d, "spec.replicas", 1))
 				}
 			}
